@@ -273,10 +273,6 @@ Qed.
 
 Ltac by_consume := match goal with |- P (snd (consume _ _ _ _ _ _ _)) => apply consume_inv; assumption end.
 
-Lemma get_system_info_inv w : P w -> P (snd (get_system_info cfg w)).
-Proof. intros H. unfold get_system_info. by_consume. Qed.
-Lemma initialize_inv w : P w -> P (snd (initialize cfg w)).
-Proof. intros H. unfold initialize. by_consume. Qed.
 (* dropping the current connection is something a poll can do (an Err item was yielded, the budget is used up), so it preserves P *)
 Lemma drop_cur_inv w : P w -> P (drop_cur w).
 Proof.
@@ -286,6 +282,16 @@ Proof.
   exact K.
 Qed.
 
+Lemma get_system_info_inv w : P w -> P (snd (get_system_info cfg w)).
+Proof.
+  intros H. unfold get_system_info.
+  match goal with |- context [consume ?f cfg ?r w ?a ?h ?fin] => pose proof (consume_inv h fin f r w a H) as K; destruct (consume f cfg r w a h fin) as [[si|e] w1] end;
+    cbn [snd] in K; [|exact K].
+  destruct (first_pos si) as [[| dev | | | | | |]|]; cbn [snd]; try (apply drop_cur_inv; exact K).
+  destruct (list_eqb _ _); cbn [snd]; [exact K|apply drop_cur_inv; exact K].
+Qed.
+Lemma initialize_inv w : P w -> P (snd (initialize cfg w)).
+Proof. intros H. unfold initialize. by_consume. Qed.
 Lemma get_pending_inv w : P w -> P (snd (get_pending cfg w)).
 Proof.
   intros H. unfold get_pending.
